@@ -45,12 +45,13 @@ def probe_ok(data: bytes) -> bool:
 
 class Host:
     def __init__(self, ip: str, datagram, *, listen_port: int = 6445, copies: int = 1, delay: float = 0.0,
-                 hostname: Optional[str] = None) -> None:
+                 hostname: Optional[str] = None, src_port: int = 6445) -> None:
         """datagram: bytes, or a list of byte strings used round-robin for the copies.
         delay: how much later than the others this host answers; hostname: a DNS name that resolves to this host."""
         self.ip = ip
         self.delay = delay
         self.hostname = hostname
+        self.src_port = src_port      # UDP source port of the first copy (further copies: +1, +2)
         self.datagrams = list(datagram) if isinstance(datagram, (list, tuple)) else [datagram]
         self.datagram = self.datagrams[0]
         self.listen_port = listen_port
@@ -87,7 +88,7 @@ class Population:
             for i in triggered:
                 h = self.hosts[i]
                 for c in range(h.copies):
-                    transport.deliver(h.datagrams[c % len(h.datagrams)], (h.ip, 6445 + c), self.t0 + h.delay + (i * 4 + c) * self.gap)
+                    transport.deliver(h.datagrams[c % len(h.datagrams)], (h.ip, h.src_port + c), self.t0 + h.delay + (i * 4 + c) * self.gap)
             return
         # explicit global arrival order: deliver once every host that takes part has been triggered
         if not self.planned and all(h.answered for h in self.hosts):
@@ -97,4 +98,4 @@ class Population:
                 c = seen.get(i, 0)
                 seen[i] = c + 1
                 h = self.hosts[i]
-                transport.deliver(h.datagrams[c % len(h.datagrams)], (h.ip, 6445 + c), self.t0 + k * self.gap)
+                transport.deliver(h.datagrams[c % len(h.datagrams)], (h.ip, h.src_port + c), self.t0 + k * self.gap)
